@@ -1,7 +1,7 @@
 SPECIFICATION MCSpec
 CONSTANTS
   Configs <- ConfigsGenTime
-  ClampOnAdd = FALSE
+  ClampOnAdd = TRUE
   MaxNow = 6
   MaxDt = 2
   MaxSteps = 4
